@@ -40,6 +40,8 @@ type Wire struct {
 	// Sink, if set, receives every frame the peer-side builders (Push, SendCall, ...) produce instead of the
 	// Conn-facing queue; used to feed a byte-stream Pipe.
 	Sink func(b []byte)
+	// SendHook, if set, runs at the start of every send (a slow or descheduled transport).
+	SendHook func()
 	mu       sync.Mutex
 	in       [][]byte // peer -> Conn
 	inSig    chan struct{}
@@ -96,6 +98,9 @@ func (w *Wire) NewMessage(ctx context.Context) (rpccp.Message, func() error, cap
 	w.mu.Unlock()
 	released := false
 	send := func() error {
+		if w.SendHook != nil {
+			w.SendHook()
+		}
 		_, f := w.op(OpSend)
 		if f == FaultErr {
 			return ErrInjected
@@ -313,6 +318,7 @@ type Msg struct {
 	Method    uint16    `json:"method,omitempty"`
 	RetKind   string    `json:"ret_kind,omitempty"` // results exception canceled ...
 	Serial    uint64    `json:"serial,omitempty"`   // data word 0 of params/results content
+	Flags     uint64    `json:"flags,omitempty"`    // data word 1 of params content (behaviour flags)
 	ContentKind string  `json:"content_kind,omitempty"` // null struct list cap
 	ContentCap int      `json:"content_cap"`         // capability index if the content is an interface pointer, else -1
 	PtrCaps   []int     `json:"ptr_caps,omitempty"`  // capability index in each pointer field of a struct content (-1 otherwise)
@@ -394,6 +400,9 @@ func payload(out *Msg, p rpccp.Payload) {
 		out.ContentKind = "struct"
 		s := c.Struct()
 		out.Serial = s.Uint64(0)
+		if s.Size().DataSize >= 16 {
+			out.Flags = s.Uint64(8)
+		}
 		for i := 0; i < int(s.Size().PointerCount); i++ {
 			pp, err := s.Ptr(uint16(i))
 			if err == nil && pp.Interface().IsValid() {
